@@ -449,6 +449,22 @@ func genDkgLib(rng *hx.Rng, tier string, w *hx.Writer, prop string) error {
 		{"equivocation-honest-sids", func(s *dkgSess, b int) dkgHooks { return equivocate(s, b, false) }},
 		{"equivocation-crossed-sids", func(s *dkgSess, b int) dkgHooks { return equivocate(s, b, true) }},
 		{"surplus-equivocation", func(s *dkgSess, b int) dkgHooks { return surplusEquivocation(s, b) }},
+		{"share-of-shorter-poly", func(s *dkgSess, b int) dkgHooks {
+			// as many commitments as the honest dealers, the announced threshold one less, and every share
+			// the value of the polynomial WITHOUT its top coefficient (the same content for everybody, the
+			// session id derived from it): no share lies on the committed polynomial
+			c := s.coeffs[b]
+			return dkgHooks{deal: func(i, j int) (*dkg.Deal, *edealDesc, bool) {
+				if j != b {
+					return nil, nil, true
+				}
+				tt := len(c) - 1
+				p := plainDesc{sid: sidDesc{dealer: s.members[b], members: s.members, commits: c, t: tt}, idx: i,
+					share: refEval(c[:tt], i, BnQ), t: tt, commits: c}
+				d, desc := s.byzDeal(b, i, p)
+				return d, desc, true
+			}}
+		}},
 		{"wrong-threshold", func(s *dkgSess, b int) dkgHooks {
 			badT := []int{0, 1, s.n + 1}[s.rng.Intn(3)]
 			return dkgHooks{deal: func(i, j int) (*dkg.Deal, *edealDesc, bool) {
